@@ -786,6 +786,42 @@ def align_growth(f, r):
 
 
 # ------------------------------------------------------------------------------------------------ 6. loops
+
+def fold_default_override(f, r):
+    """`v = A` directly followed by `if C: v = B` (no else; C does not read v; A pure)  ->  `v = B[v := A] if C else A`, when the reference
+    binds a value under the same test (or its negation) with a conditional expression.  Also `v = []` + `if C: v.append(x)` -> `v = [x] if C else []`."""
+    ref_tests = set(r.get("ifexps") or [])
+    if not ref_tests:
+        return 0
+    n_done = 0
+    for block in blocks_of(f):
+        i = 0
+        while i + 1 < len(block):
+            a, b = block[i], block[i + 1]
+            i += 1
+            if not (isinstance(a, ast.Assign) and len(a.targets) == 1 and isinstance(a.targets[0], ast.Name) and isinstance(b, ast.If) and not b.orelse and len(b.body) == 1):
+                continue
+            v = a.targets[0].id
+            if any(isinstance(n, ast.Name) and n.id == v for n in ast.walk(b.test)) or not _pure(a.value):
+                continue
+            if _ntext(b.test) not in ref_tests and _ntext(negate(b.test)) not in ref_tests:
+                continue
+            inner = b.body[0]
+            new_val = None
+            if isinstance(inner, ast.Assign) and len(inner.targets) == 1 and isinstance(inner.targets[0], ast.Name) and inner.targets[0].id == v:
+                new_val = _Subst({v: a.value}).visit(copy.deepcopy(inner.value))
+            elif isinstance(inner, ast.Expr) and isinstance(inner.value, ast.Call) and isinstance(inner.value.func, ast.Attribute) and inner.value.func.attr == "append" \
+                    and isinstance(inner.value.func.value, ast.Name) and inner.value.func.value.id == v and len(inner.value.args) == 1 and isinstance(a.value, ast.List) and not a.value.elts:
+                new_val = ast.List(elts=[copy.deepcopy(inner.value.args[0])], ctx=ast.Load())
+            if new_val is None:
+                continue
+            a.value = ast.copy_location(ast.IfExp(test=b.test, body=new_val, orelse=a.value), a.value)
+            ast.fix_missing_locations(a)
+            del block[i]
+            n_done += 1
+    return n_done
+
+
 def normalise_loops(f, r):
     """loops the reference does not have in this form:
        for i, v in enumerate(S): ... v ...        ->  for i in range(len(S)): ... S[i] ...      (S a name / attribute not re-bound in the loop)
@@ -892,6 +928,10 @@ def _undo_round(tree, relpath, ref, log):
         if not isinstance(r, dict) or "ifs" not in r:
             continue
         did = []
+        nf = fold_default_override(f, r)
+        if nf:
+            did.append(f"default-then-override x{nf}")
+            _strip(f)
         tv = inline_temporaries(f, r)
         if tv:
             did.append(f"inlined temporaries {tv}")
